@@ -121,6 +121,13 @@ def scatter(rng, box, torrents, decoys="safe", ndirs=None):
             with open(os.path.join(d, fname), "wb") as fd:
                 fd.write(data)
             placed.append(("orig", os.path.join(d, fname)))
+            if decoys != "none" and not data and rng.random() < 0.7:
+                dd = os.path.join(sdirs[0], f"a0-first-{counter[0]}")     # enumerated early
+                os.makedirs(dd, exist_ok=True)
+                if not os.path.exists(os.path.join(dd, fname)):
+                    with open(os.path.join(dd, fname), "wb") as fd:
+                        fd.write(b"not empty at all, although the torrent says length 0")
+                    placed.append(("size", os.path.join(dd, fname)))
             if decoys != "none" and data and rng.random() < 0.5:
                 kind = rng.choice(["size", "safe", "total"]) if decoys == "safe" else decoys
                 dd = spot(sdirs[rng.randrange(ndirs)])
